@@ -298,7 +298,7 @@ class MaderA(Adapter):
 
 
 ADAPTERS = {"Noh": NohA, "Cog19": NohA, "Cog20": Cog20A, "Cog21": Cog21A, "BBNoh": BBNohA, "IGEOS": IGEOSA,
-            "IGEOS_table": IGEOSA, "EPpiston": EPpistonA, "EHEP": EHEPA, "SDRZ": SDRZA, "Guderley": GuderleyA, "RMTV": RMTVA, "Sedov": SedovA, "Mader": MaderA,
+            "IGEOS_table": IGEOSA, "IGEOS_bnd": IGEOSA, "EPpiston": EPpistonA, "EHEP": EHEPA, "SDRZ": SDRZA, "Guderley": GuderleyA, "RMTV": RMTVA, "Sedov": SedovA, "Mader": MaderA,
             "GenEOS": GenEOSA, "GenEOS_table": GenEOSA}
 
 
